@@ -353,22 +353,34 @@ def emit_callee_mir(path, cs):
 VA_TAILS = [["i64", "i64"], ["d", "d"], ["i64", "d", "ld"], ["ld", "i64", "d"], ["d", "i64", "i64"]]
 
 
+VA_BLOCK_NAMED = [  # named parameter lists with by-value blocks (register class, memory class, size not a multiple of 8, fallen to memory)
+    ("blk1r", ["i64", "blk1:16"]), ("blk1m", ["i64"] * 5 + ["blk1:16"]), ("blk0", ["blk0:24", "i64"]), ("blk0odd", ["i64", "blk0:12"]), ("blk0odd6", ["i64"] * 6 + ["blk0:12"]),
+    ("blk2r", ["blk2:16", "d"]), ("blk3r", ["i64", "blk3:16"]), ("blk4r", ["d", "blk4:16", "i64"]), ("ld", ["i64"] * 7 + ["ld"]), ("ld2", ["ld", "i64"]),
+]
+
+
 def va_cases(tier, seed=0):
-    """named arguments: n_int x i64 followed by n_fp x d (and the reverse order for mixed ones), then a variadic tail read back with va_arg"""
+    """named arguments: n_int x i64 followed by n_fp x d (and the reverse order for mixed ones), or a list of VA_BLOCK_NAMED,
+    then a variadic tail read back with va_arg"""
     # MIR text cannot declare a variadic function without a named parameter, so (0, 0) does not exist
     shapes = [(ni, 0) for ni in range(1, 10)] + [(0, nf) for nf in range(1, 10)]
     shapes += [(5, 7), (6, 8), (7, 9), (3, 3), (6, 1), (1, 8), (5, 8), (6, 7), (9, 9)]
     if tier == "thorough":
         shapes = [(ni, nf) for ni in range(10) for nf in range(10) if ni + nf > 0]
+    tails = VA_TAILS if tier == "thorough" else VA_TAILS[:4]
     out = []
     for (ni, nf) in shapes:
         orders = [["i64"] * ni + ["d"] * nf]
         if ni and nf:
             orders.append(["d"] * nf + ["i64"] * ni)
         for oi, named in enumerate(orders):
-            for ti, tail in enumerate(VA_TAILS if tier == "thorough" else VA_TAILS[:4]):
+            for ti, tail in enumerate(tails):
                 out.append({"name": "v%d_%d_%d_%d" % (ni, nf, oi, ti), "res": ["i64"], "args": named + tail, "nnamed": len(named), "vararg": 1,
-                            "va": tail, "shape": (ni, nf)})
+                            "va": tail, "group": "int%d_fp%d" % (ni, nf)})
+    for gname, named in VA_BLOCK_NAMED:
+        for ti, tail in enumerate(tails):
+            out.append({"name": "v%s_%d" % (gname, ti), "res": ["i64"], "args": named + tail, "nnamed": len(named), "vararg": 1,
+                        "va": tail, "group": gname})
     return out
 
 
